@@ -7,7 +7,7 @@ from trie.smt import SparseMerkleTree, calc_root  # noqa: E402
 from eth_hash.auto import keccak  # noqa: E402
 
 ID = "C14"
-LEAN_IMPORTS = ["PyTrie.Props.C14", "PyTrie.Props.SmtInt"]
+LEAN_IMPORTS = ["PyTrie.Props.C14", "PyTrie.Props.SmtInt", "PyTrie.Props.NonVacuity"]
 THEOREMS = [
     "PyTrie.Props.C14.run_rep",
     "PyTrie.Props.C14.root_is_merkle_root",
@@ -25,6 +25,10 @@ THEOREMS = [
     "PyTrie.Props.SmtInt.get_agrees",
     "PyTrie.Props.SmtInt.set_agrees",
     "PyTrie.Props.SmtInt.calc_root_agrees",
+    "PyTrie.Props.NonVacuity.smt_functional",
+    "PyTrie.Props.NonVacuity.smt_get",
+    "PyTrie.Props.NonVacuity.smt_get_absent",
+    "PyTrie.Props.NonVacuity.smt_root",
 ]
 RULE = ("key sizes 1, 2, 3 and 32 (and others at random), blank and non-blank defaults, histories of set / delete (method and "
         "dict syntax, values equal to the default, blank values, rewrites) over key pools whose members differ at every bit "
